@@ -79,6 +79,40 @@ fn family_of(spec: &Spec) -> String {
     }
 }
 
+/// Same type and alphabet, different content and different symbol frequencies: the sequence reversed, followed
+/// by a copy of its first third (a value whose node boundaries / code table differ from the first one's).
+fn reversed_spec(spec: &Spec) -> Option<Spec> {
+    fn grow<T: Clone>(v: &[T]) -> Vec<T> {
+        let mut w: Vec<T> = v.iter().rev().cloned().collect();
+        w.extend_from_slice(&v[..v.len() / 3 + 1]);
+        w
+    }
+    match spec {
+        Spec::Tree { alias, ty, path, seq, orders } => {
+            let v = seq.expand();
+            if v.len() < 2 {
+                return None;
+            }
+            Some(Spec::Tree {
+                alias: *alias,
+                ty: *ty,
+                path: *path,
+                seq: crate::gen::Seq::Explicit(grow(&v).into_iter().map(crate::ds::Sym).collect()),
+                orders: *orders,
+            })
+        }
+        Spec::Bits { kind, bits } if bits.len() >= 2 => Some(Spec::Bits {
+            kind: *kind,
+            bits: grow(&bits.chars().collect::<Vec<char>>()).into_iter().collect(),
+        }),
+        Spec::Quads { kind, syms } if syms.len() >= 2 => Some(Spec::Quads {
+            kind: *kind,
+            syms: grow(syms),
+        }),
+        _ => None,
+    }
+}
+
 fn op_name(q: &Q) -> String {
     format!("{q:?}").split('(').next().unwrap().to_lowercase()
 }
@@ -137,6 +171,37 @@ pub fn exec(case: &ThrCase) -> RunOut {
         }
     }
     out.count("sequential_queries", 3 * qs_all.len() as u64);
+    // ---- 2b. histories over TWO values in one thread: a second value of the same type and alphabet (the
+    // content reversed), both reloaded from their serialized form, queried alternately. State kept outside the
+    // value (a thread-local or global memo keyed by something a reload does not refresh) shows up here.
+    if let Some(other) = reversed_spec(&case.spec) {
+        let z = catch(|| other.build());
+        let reload = |v: &dyn DynDs| -> Option<Box<dyn DynDs>> {
+            let bytes = catch(|| ser_vec(v, 0)).ok()?.ok()?;
+            catch(|| v.de_from(0, &mut &bytes[..])).ok()?.ok()
+        };
+        if let Ok(z) = z {
+            let alone_z: Vec<A> = qs_all.iter().map(|q| catch(|| z.answer(q)).unwrap_or_else(A::Panic)).collect();
+            if let (Some(x2), Some(z2)) = (reload(x.as_ref()), reload(z.as_ref())) {
+                out.count("two_value_histories", 1);
+                for k in 0..qs_all.len() {
+                    let a = catch(|| x2.answer(&qs_all[k])).unwrap_or_else(A::Panic);
+                    let b = catch(|| z2.answer(&qs_all[k])).unwrap_or_else(A::Panic);
+                    for (label, got, want, kind) in [("first", &a, &first[k], x.kind()), ("second", &b, &alone_z[k], z.kind())] {
+                        if got != want {
+                            out.violate(
+                                sig(&fam, &op_name(&qs_all[k]), "answer_depends_on_history", "sequential_two_values"),
+                                format!(
+                                    "{kind}: two reloaded values of one type queried alternately in one thread: {:?} on the {label} value answered {got:?}, the same value queried alone answers {want:?}",
+                                    qs_all[k]
+                                ),
+                            );
+                        }
+                    }
+                }
+            }
+        }
+    }
     // ---- 3. schedules
     #[cfg(feature = "sched")]
     {
@@ -148,8 +213,12 @@ pub fn exec(case: &ThrCase) -> RunOut {
             .zip(first.iter().cloned())
             .filter(|(_, a)| !matches!(a, A::Panic(_)))
             .collect();
-        if !batch.is_empty() {
-            let r = sched::run(case, x, batch, &fam);
+        // the threads share a value nobody has queried yet (a second, identical construction), so that anything
+        // done lazily on first use happens under the scheduler; the expected answers come from `x`
+        let fresh = catch(|| case.spec.build());
+        if let (false, Ok(y)) = (batch.is_empty(), fresh) {
+            drop(x);
+            let r = sched::run(case, y, batch, &fam);
             for (k, v) in r.counters {
                 out.count(&k, v);
             }
